@@ -5,3 +5,4 @@ import FtModel.Point
 import FtModel.Populate
 import FtModel.Mutate
 import FtModel.Format
+import FtModel.Codec
